@@ -72,21 +72,31 @@ class Driver:
         return r
 
     def ask_many(self, objs):
-        """pipelined version: write all, then read all (keeps the pipe from deadlocking by chunking)"""
+        """pipelined: a writer thread feeds the driver while this thread reads the answers (no pipe deadlock,
+        whatever the size of the requests)"""
+        import threading
+        if not objs:
+            return []
+        data = ''.join(json.dumps(o) + '\n' for o in objs)
+
+        def feed():
+            try:
+                self.p.stdin.write(data)
+                self.p.stdin.flush()
+            except Exception:
+                pass
+        t = threading.Thread(target=feed, daemon=True)
+        t.start()
         out = []
-        CH = 200
-        for i in range(0, len(objs), CH):
-            chunk = objs[i:i + CH]
-            self.p.stdin.write(''.join(json.dumps(o) + '\n' for o in chunk))
-            self.p.stdin.flush()
-            for o in chunk:
-                line = self.p.stdout.readline()
-                if not line:
-                    raise RuntimeError('lean driver died')
-                r = json.loads(line)
-                if 'fatal' in r:
-                    raise RuntimeError('lean driver protocol error %r on %r' % (r['fatal'], o))
-                out.append(r)
+        for o in objs:
+            line = self.p.stdout.readline()
+            if not line:
+                raise RuntimeError('lean driver died')
+            r = json.loads(line)
+            if 'fatal' in r:
+                raise RuntimeError('lean driver protocol error %r on %r' % (r['fatal'], o))
+            out.append(r)
+        t.join()
         self.n += len(objs)
         return out
 
@@ -249,13 +259,21 @@ def with_alarm(fn, seconds=10):
 
     def h(sig, frm):
         raise Timeout()
+    t0 = time.time()
     old = signal.signal(signal.SIGALRM, h)
-    signal.setitimer(signal.ITIMER_REAL, seconds)
+    prev_delay, _ = signal.setitimer(signal.ITIMER_REAL, seconds)
+    if prev_delay and prev_delay < seconds:
+        # an enclosing alarm is due earlier: keep it (nestable alarms)
+        signal.signal(signal.SIGALRM, old)
+        signal.setitimer(signal.ITIMER_REAL, prev_delay)
+        return fn()
     try:
         return fn()
     finally:
         signal.setitimer(signal.ITIMER_REAL, 0)
         signal.signal(signal.SIGALRM, old)
+        if prev_delay:
+            signal.setitimer(signal.ITIMER_REAL, max(0.01, prev_delay - (time.time() - t0)))
 
 
 class Ctx:
@@ -277,6 +295,7 @@ class Ctx:
         self.driver = None
         self.model_ok = True          # lean build + audit succeeded
         self.quick = tier == 'quick'
+        self.deadline = None          # set while a failing-input search runs (time budget)
 
     def scale(self, quick, thorough):
         return quick if self.quick else thorough
@@ -286,6 +305,8 @@ class Ctx:
 
     def case(self, sample, nontrivial_key=None, kind=None):
         """register one explored case; nontrivial_key (hashable) marks it distinct & non-trivial"""
+        if self.deadline is not None and time.time() > self.deadline:
+            raise Timeout()
         self.evaluations += 1
         if kind:
             self.count(kind)
